@@ -120,5 +120,21 @@ Definition diag_ers (sn : ers_snapshot) (obs : ers_obs) : list N :=
       code_if (pl_requeue_after pl =? ob_requeue_after obs) 9 ++
       code_if (Bool.eqb (pl_error pl) (ob_error obs)) 10
   end.
+Fixpoint first_bad_write (i : N) (ws : list eds_write) (os : list obs_write) : list N :=
+  match ws, os with
+  | [], [] => []
+  | w :: r1, o :: r2 => if write_matches w o then first_bad_write (N.succ i) r1 r2 else [100 + i]%N
+  | _, _ => [150 + i]%N
+  end.
+Definition diag_eds (sn : eds_snapshot) (obs : eds_obs) : list N :=
+  match eds_sync sn with
+  | Panic c => if eo_panic obs then [] else [21; 1000 + c]%N
+  | Error c => [21; 2000 + c]%N
+  | Ok pl =>
+      code_if (negb (eo_panic obs)) 21 ++ first_bad_write 0 (ep_writes pl) (eo_writes obs) ++
+      code_if (Bool.eqb (ep_error pl) (eo_error obs)) 23 ++
+      code_if (Bool.eqb (ep_requeue pl) (eo_requeue obs)) 24 ++
+      code_if (ep_requeue_after pl =? eo_requeue_after obs) 25
+  end.
 Definition diag (c : case) : list N :=
-  match c with CErs sn obs => diag_ers sn obs | CEds _ _ => [] end.
+  match c with CErs sn obs => diag_ers sn obs | CEds sn obs => diag_eds sn obs end.
